@@ -153,6 +153,22 @@ def mapStep (m : MapSt) (op : GOp) : Option (MapSt × GRet) :=
 
 def map : Spec MapSt GOp GRet := detSpec [] mapStep
 
+/-- Ordered containers whose `extract_min` / `extract_max` are only required (C15) to return a key that was
+    present, and empty only if the container was empty at some instant: the returned item is removed,
+    whichever present key it is.  The remaining clause of C15 ("no key present throughout the call is
+    smaller / larger") is a real-time condition on the history and is judged by the harness oracle. -/
+def mapRelaxedNext (m : MapSt) (op : GOp) (r : GRet) : Option MapSt :=
+  match op.name, op.args, r with
+  | "extract_min", [], [0] => if m.isEmpty then some m else none
+  | "extract_max", [], [0] => if m.isEmpty then some m else none
+  | "extract_min", [], [1, k, v] => if mfind m k = some v then some (merase m k) else none
+  | "extract_max", [], [1, k, v] => if mfind m k = some v then some (merase m k) else none
+  | _, _, _ => match mapStep m op with
+    | some (m', r') => if r = r' then some m' else none
+    | none => none
+
+def mapRelaxed : Spec MapSt GOp GRet := { init := [], next := mapRelaxedNext }
+
 /-! ### Bag (free lists, pools): `put x`, `get → x` for any `x` present, `get → none`
     only when empty. -/
 
